@@ -35,6 +35,7 @@ static void leaf(const std::vector<std::string>& w)
 		unsigned r;
 		if (kind == 0) r = internal::BucketLimP4<BIT, 4, MemPoolParams<>, true>::pvCalcShortHash(hc);
 		else if (kind == 1) r = internal::BucketOpen2N2<BIT, 3, true>::pvCalcShortHash(hc);
+		else if (kind == 3) r = internal::BucketOpen2N2<BIT, 3, false>::pvCalcShortHash(hc);
 		else r = internal::BucketOpenN1<BIT, 3, true>::ptCalcShortHash(hc);
 		printf("%u\n", r);
 		return;
